@@ -57,6 +57,9 @@ func Sharded(n int, runItem func(i int) ItemResult) []ItemResult {
 			out.Write(b)
 			out.WriteByte('\n')
 			out.Flush()
+			if r.EngineErr != "" {
+				os.Exit(0) // a natively blocked or spinning goroutine may linger: do not reuse this process
+			}
 		}
 		os.Exit(0)
 	}
@@ -72,18 +75,18 @@ func Sharded(n int, runItem func(i int) ItemResult) []ItemResult {
 	}
 	results := make([]ItemResult, n)
 	var mu sync.Mutex
+	var engineErr string
 	next := 0
 	take := func() int {
 		mu.Lock()
 		defer mu.Unlock()
-		if next >= n {
+		if next >= n || engineErr != "" {
 			return -1
 		}
 		next++
 		return next - 1
 	}
 	var wg sync.WaitGroup
-	var engineErr string
 	for w := 0; w < workers; w++ {
 		wg.Add(1)
 		go func(w int) {
@@ -121,6 +124,12 @@ func Sharded(n int, runItem func(i int) ItemResult) []ItemResult {
 					break
 				}
 				results[i] = r
+				if r.EngineErr != "" {
+					mu.Lock()
+					engineErr = r.EngineErr
+					mu.Unlock()
+					break
+				}
 			}
 			stdin.Close()
 			cmd.Wait()
